@@ -6,6 +6,7 @@ use std::panic::{catch_unwind, AssertUnwindSafe};
 
 pub mod problems;
 pub mod templates;
+pub mod sertree;
 
 /// SplitMix64 — the only source of generator decisions (independent of the `rand` crate).
 #[derive(Clone)]
